@@ -45,8 +45,8 @@ func subs(r *mc.Run) []subSearch {
 	d := r.Pick
 	far := uint64(1<<32 + 2)
 	all := []subSearch{
-		{name: "compactmap/empty", kind: "cm", pre: "empty", uni: pick(p["empty"].uniQ, p["empty"].uniT), unmerged: d(2, 4), depth: d(4, 7), workers: 6},
-		{name: "memory/empty", kind: "memory", pre: "empty", uni: pick(p["empty"].uniQ, p["empty"].uniT), unmerged: d(2, 4), depth: d(4, 6), workers: 6},
+		{name: "compactmap/empty", kind: "cm", pre: "empty", uni: pick(p["empty"].uniQ, p["empty"].uniT), unmerged: d(2, 4), depth: d(4, 6), workers: 6},
+		{name: "memory/empty", kind: "memory", pre: "empty", uni: pick(p["empty"].uniQ, p["empty"].uniT), unmerged: d(2, 3), depth: d(4, 5), workers: 6},
 		{name: "leveldb/empty", kind: "leveldb", pre: "empty", uni: pick([]uint64{1, far}, []uint64{2, 3, 1, far}), unmerged: d(2, 3), depth: d(3, 4), workers: 4},
 		{name: "compactmap/batch", kind: "cm", pre: "batch", uni: pick(p["batch"].uniQ, p["batch"].uniT), unmerged: d(2, 3), depth: d(3, 4), workers: 4},
 		{name: "compactmap/batch-1", kind: "cm", pre: "batch-1", uni: pick(p["batch-1"].uniQ, p["batch-1"].uniT), unmerged: d(2, 3), depth: d(3, 4), workers: 4},
